@@ -20,11 +20,12 @@ func init()            { core.Register(c11{}) }
 func (c11) ID() string { return "C11" }
 
 type c11Case struct {
-	K     int      `json:"k"`
-	First int      `json:"first"`
-	Only  []int    `json:"only,omitempty"`
-	OnlyF []c11Flt `json:"only_faults,omitempty"`
-	OnlyO string   `json:"only_op,omitempty"`
+	K       int      `json:"k"`
+	First   int      `json:"first"`
+	Only    []int    `json:"only,omitempty"`
+	OnlyF   []c11Flt `json:"only_faults,omitempty"`
+	OnlyO   string   `json:"only_op,omitempty"`
+	NoPairs bool     `json:"no_pairs,omitempty"`
 }
 
 // fault: Kind "it" = input iterator In fails at its Pos-th Next call (Perm: keeps failing, fuse 8, then Done;
